@@ -53,7 +53,7 @@ Print Assumptions C13_silent_until_ack.
 (* ---- first frame not the ack => invalid-message error, one frame consumed ---- *)
 Definition C13_first_not_ack_invalid_full : Prop := forall c rq f r, is_ack f = false ->
   exists msg, t_fin (run_ws c rq (f :: r)) = RaisedInvalid msg.
-Theorem C13_first_not_ack_invalid_partial : forall c rq f r, shape_ok f = true -> is_ack f = false ->
+Theorem C13_first_not_ack_invalid_partial : forall c rq f r, type_crashes f = false -> is_ack f = false ->
   exists msg, t_fin (run_ws c rq (f :: r)) = RaisedInvalid msg /\
               t_events (run_ws c rq (f :: r)) = [ESend (init_msg c); ERecv].
 Proof. exact first_not_ack. Qed.
@@ -94,18 +94,55 @@ Print Assumptions C13_complete_finishes.
 Definition C13_malformed_raises_invalid_full : Prop := forall c rq f a x b m, is_ack f = true ->
   subscribe_msg rq = Some m -> nonterminal a = true -> skind_of x = SMalformed ->
   exists msg, t_fin (run_ws c rq (f :: a ++ x :: b)) = RaisedInvalid msg.
-Theorem C13_error_raises_multi_partial : forall c rq f a x b m l, is_ack f = true ->
-  subscribe_msg rq = Some m -> nonterminal a = true -> skind_of x = SError l -> shape_ok x = true ->
+(* error with a list of error objects (or no payload): full strength, the hypothesis skind_of x = SError l
+   already excludes the crash class *)
+Theorem C13_error_raises_multi : forall c rq f a x b m l, is_ack f = true ->
+  subscribe_msg rq = Some m -> nonterminal a = true -> skind_of x = SError l ->
   t_fin (run_ws c rq (f :: a ++ x :: b)) = RaisedMulti l (frame_json x) /\
   yielded_of (t_events (run_ws c rq (f :: a ++ x :: b))) = filter nonnull (next_data a).
 Proof. exact error_multi. Qed.
-Print Assumptions C13_error_raises_multi_partial.
+Print Assumptions C13_error_raises_multi.
 Theorem C13_malformed_raises_invalid_partial : forall c rq f a x b m, is_ack f = true ->
   subscribe_msg rq = Some m -> nonterminal a = true -> skind_of x = SMalformed -> shape_ok x = true ->
   t_fin (run_ws c rq (f :: a ++ x :: b)) = RaisedInvalid (Some x) /\
   yielded_of (t_events (run_ws c rq (f :: a ++ x :: b))) = filter nonnull (next_data a).
 Proof. exact malformed_invalid. Qed.
 Print Assumptions C13_malformed_raises_invalid_partial.
+
+(* ---- the shape class is EXACT.  A run ends with an exception that is neither the multi-error nor
+        the invalid-message error (nor ConnectionClosed) only if (1) the variables cannot be serialised
+        at all, or (2) the first frame is in the syntactic class type_crashes, or (3) after the ack a
+        frame of the syntactic class crash_stream = type_crashes || payload_crashes is consumed; and
+        conversely every such frame, once consumed, does end the run that way ---- *)
+Theorem C13_only_protocol_outcomes : forall c rq fs e, t_fin (run_ws c rq fs) = RaisedOther e ->
+  (e = SER_ERROR /\ subscribe_msg rq = None /\ exists f r, fs = f :: r /\ is_ack f = true)
+  \/ (exists f r, fs = f :: r /\ type_crashes f = true)
+  \/ (exists f a x b, fs = f :: a ++ x :: b /\ is_ack f = true /\ nonterminal a = true /\ crash_stream x = true).
+Proof. exact only_protocol_outcomes. Qed.
+Print Assumptions C13_only_protocol_outcomes.
+
+Theorem C13_crash_class_exact_stream : forall c rq f a x b m, is_ack f = true -> subscribe_msg rq = Some m ->
+  nonterminal a = true -> crash_stream x = true ->
+  exists e, t_fin (run_ws c rq (f :: a ++ x :: b)) = RaisedOther e.
+Proof. exact crash_consumed_raises. Qed.
+Print Assumptions C13_crash_class_exact_stream.
+
+Theorem C13_crash_class_exact_first : forall c rq f r, type_crashes f = true ->
+  exists e, t_fin (run_ws c rq (f :: r)) = RaisedOther e.
+Proof. exact first_crash_raises. Qed.
+Print Assumptions C13_crash_class_exact_first.
+
+(* the remaining two frames of shape_ok = false: error with payload {} or "" gives an empty multi-error *)
+Theorem C13_odd_error_empty_multi : forall rq f, odd_empty_error f = true ->
+  step rq Streaming f = (Done (RaisedMulti [] (frame_json f)), [ERecv]).
+Proof. exact odd_error_multi. Qed.
+Print Assumptions C13_odd_error_empty_multi.
+
+(* ---- the type table handed to the harness (and compared there with the enum in /repo) is what the
+        model decides with ---- *)
+Theorem C13_type_table_exact : forall s t, mtype_of_string s = Some t <-> exists n, In (n, s, t) type_table.
+Proof. exact mtype_table_exact. Qed.
+Print Assumptions C13_type_table_exact.
 
 (* ---- the OpenTelemetry client, with or without tracer, produces the same trace ---- *)
 Theorem C13_otel_same_trace : forall c rq fs tracer,
